@@ -340,3 +340,73 @@ package boltz
 //@   props C13
 //@   pure
 //@   ensures[equal-encodings-equal-lists] result ==> len(a) == len(b) && forall(k, 0 <= k && k < len(a) ==> a[k] == b[k])
+
+// ---- string lists: a sub-bucket whose keys are the typed elements ----
+//@ func NewTypedBucket
+//@   props C13
+//@   pure
+//@   ensures[wraps] result != nil && fresh(result) && result.Bucket == bucket && result.parent == parent && result.ErrorHolderImpl != nil && fresh(result.ErrorHolderImpl) && result.Err == nil
+// EmptyBucket: the sub-bucket under name, created or re-created empty
+//@ func (*TypedBucket).EmptyBucket
+//@   props C07 C13
+//@   errflow
+//@   assume bucket.Bucket != nil
+//@   modifies bktHas[bucket.Bucket], bktSub[bucket.Bucket]
+//@   ensures[fresh-empty-child] result1 == nil ==> result0 != nil && fresh(result0) && result0.Bucket != nil && result0.Bucket == bktSub[bucket.Bucket][name] && fresh(result0.Bucket) && bktHas[bucket.Bucket][name] && forallStr(s, !bktHas[result0.Bucket][s]) && result0.ErrorHolderImpl != nil && fresh(result0.ErrorHolderImpl) && result0.Err == nil
+//@   ensures[other-keys-kept] forallStr(s, s != name ==> bktHas[bucket.Bucket][s] == old(bktHas[bucket.Bucket][s]) && bktSub[bucket.Bucket][s] == old(bktSub[bucket.Bucket][s]))
+//@   ensures[error-is-returned] result1 != nil ==> result0 == nil
+//@ func (*TypedBucket).SetListEntry
+//@   props C13
+//@   assume bucket.ErrorHolderImpl != nil && bucket.Bucket != nil
+//@   modifies bucket.Err, bktHas[bucket.Bucket], bktVal[bucket.Bucket]
+//@   ensures result == bucket
+//@   ensures[skipped] old(bucket.Err) != nil ==> bucket.Err == old(bucket.Err) && kept(bucket)
+//@   ensures[added] old(bucket.Err) == nil && bucket.Err == nil ==> bktHas[bucket.Bucket] == sto(old(bktHas[bucket.Bucket]), prepend(fieldType, str(value)), true)
+//@   ensures[failed-atomically] old(bucket.Err) == nil && bucket.Err != nil ==> kept(bucket)
+// listed(h, value): the key set h is exactly the typed elements of value
+//@ define listed(h, value) = forallStr(s, sel(h, s) == exists(k, 0 <= k && k < len(value) && s == prepend(TypeString, value[k])))
+//@ func (*TypedBucket).SetStringList
+//@   props C13 C07
+//@   assume bucket.ErrorHolderImpl != nil && bucket.Bucket != nil
+//@   modifies bucket.Err, bktHas[bucket.Bucket], bktSub[bucket.Bucket]
+//@   ensures result == bucket
+//@   ensures[skipped] !proceeds(bucket, name, fieldChecker) ==> bucket.Err == old(bucket.Err) && bktHas[bucket.Bucket] == old(bktHas[bucket.Bucket]) && bktSub[bucket.Bucket] == old(bktSub[bucket.Bucket])
+//@   ensures[written] proceeds(bucket, name, fieldChecker) && bucket.Err == nil ==> bktHas[bucket.Bucket][name] && bktSub[bucket.Bucket][name] != 0 && listed(bktHas[bktSub[bucket.Bucket][name]], value)
+//@   ensures[other-keys-kept] forallStr(s, s != name ==> bktHas[bucket.Bucket][s] == old(bktHas[bucket.Bucket][s]) && bktSub[bucket.Bucket][s] == old(bktSub[bucket.Bucket][s]))
+//@   invariant 1: listBucket != nil && listBucket.Bucket == bktSub[bucket.Bucket][name] && listBucket.Bucket != nil && bktHas[bucket.Bucket][name] && forallStr(s, s != name ==> bktHas[bucket.Bucket][s] == old(bktHas[bucket.Bucket][s]) && bktSub[bucket.Bucket][s] == old(bktSub[bucket.Bucket][s])) && listBucket.ErrorHolderImpl != nil && listBucket.Err == nil && bucket.Err == nil && forallStr(s, sel(bktHas[listBucket.Bucket], s) == exists(k, 0 <= k && k <= rangeindex && s == prepend(TypeString, value[k])))
+//@ func (*TypedBucket).GetBucketByKey
+//@   props C13
+//@   nilrecv
+//@   pure
+//@   ensures[nil-receiver] bucket == nil ==> result == nil
+//@   ensures[pending-error] bucket != nil && bucket.Err != nil ==> result == bucket
+//@   ensures[child-or-nil] bucket != nil && bucket.Err == nil ==> (result != nil) == (bktHas[bucket.Bucket][str(key)] && bktSub[bucket.Bucket][str(key)] != 0) && (result != nil ==> fresh(result) && result.Bucket == bktSub[bucket.Bucket][str(key)] && result.ErrorHolderImpl != nil && result.Err == nil)
+//@ func (*TypedBucket).GetBucket
+//@   props C13
+//@   nilrecv
+//@   pure
+//@   ensures[nil-receiver] bucket == nil ==> result == nil
+//@   ensures[pending-error] bucket != nil && bucket.Err != nil ==> result == bucket
+//@   ensures[child-or-nil] bucket != nil && bucket.Err == nil ==> (result != nil) == (bktHas[bucket.Bucket][name] && bktSub[bucket.Bucket][name] != 0) && (result != nil ==> fresh(result) && result.Bucket == bktSub[bucket.Bucket][name] && result.ErrorHolderImpl != nil && result.Err == nil)
+// ReadStringList: the keys in byte order, each without its tag byte
+//@ func (*TypedBucket).ReadStringList
+//@   props C13
+//@   assume bucket.Bucket != nil && enumKeys()
+//@   pure
+//@   ensures[keys-in-order-untagged] len(result) == keyCnt(bktHas[bucket.Bucket]) && forall(i, 0 <= i && i < len(result) ==> result[i] == untag(sel(keysOf(bktHas[bucket.Bucket]), i)))
+//@   ensures[every-key-listed] forallStr(s, sel(bktHas[bucket.Bucket], s) ==> exists(i, 0 <= i && i < len(result) && result[i] == untag(s)))
+//@   invariant 1: cursor != nil && bcKeys[cursor] == keysOf(bktHas[bucket.Bucket]) && bcLen[cursor] == keyCnt(bktHas[bucket.Bucket]) && 0 <= bcPos[cursor] && bcPos[cursor] <= bcLen[cursor] && len(result) == bcPos[cursor] && (key != nil) == (bcPos[cursor] < bcLen[cursor]) && (key != nil ==> str(key) == sel(bcKeys[cursor], bcPos[cursor]) && len(key) > 0) && forall(i, 0 <= i && i < len(result) ==> result[i] == untag(sel(keysOf(bktHas[bucket.Bucket]), i)))
+//@ func (*TypedBucket).GetStringList
+//@   props C13
+//@   assume enumKeys()
+//@   pure
+//@   ensures[no-list] bucket != nil && bucket.Err == nil && !(bktHas[bucket.Bucket][name] && bktSub[bucket.Bucket][name] != 0) ==> result == nil
+//@   ensures[keys-in-order-untagged] bucket != nil && bucket.Err == nil && bktHas[bucket.Bucket][name] && bktSub[bucket.Bucket][name] != 0 ==> len(result) == keyCnt(bktHas[bktSub[bucket.Bucket][name]]) && forall(i, 0 <= i && i < len(result) ==> result[i] == untag(sel(keysOf(bktHas[bktSub[bucket.Bucket][name]]), i)))
+//@   ensures[every-key-listed] bucket != nil && bucket.Err == nil && bktHas[bucket.Bucket][name] && bktSub[bucket.Bucket][name] != 0 ==> forallStr(s, sel(bktHas[bktSub[bucket.Bucket][name]], s) ==> exists(i, 0 <= i && i < len(result) && result[i] == untag(s)))
+//@ func verifRoundTripStringList
+//@   props C13
+//@   assume b != nil && b.ErrorHolderImpl != nil && b.Bucket != nil && enumKeys()
+//@   modifies b.Err, bktHas[b.Bucket], bktSub[b.Bucket]
+//@   ensures[sorted-duplicate-free] old(b.Err) == nil && b.Err == nil ==> forall(i, forall(j, 0 <= i && i < j && j < len(result) ==> str_lt(result[i], result[j])))
+//@   ensures[only-written-elements] old(b.Err) == nil && b.Err == nil ==> forall(i, 0 <= i && i < len(result) ==> exists(k, 0 <= k && k < len(value) && result[i] == value[k]))
+//@   ensures[every-written-element] old(b.Err) == nil && b.Err == nil ==> forall(k, 0 <= k && k < len(value) ==> exists(i, 0 <= i && i < len(result) && result[i] == value[k]))
